@@ -334,3 +334,11 @@ Proof.
   - unfold bind at 1. unfold get_root. cbn [s_root]. rewrite (Hval eq_refl). unfold ret. eexists. reflexivity.
   - unfold ret. eexists. reflexivity.
 Qed.
+
+(* ---------- the float16 upcast of variable-length elements is the identity when no element is float16 ---------- *)
+Lemma map_upcast_varr_id l : Forall (fun x => v_dt x <> DF16) l -> map upcast_varr l = l.
+Proof. induction l as [|x r IH]; intros H; [reflexivity|]. apply Forall_cons_iff in H. destruct H as [Hx Hr].
+  cbn [map]. rewrite (IH Hr). f_equal. unfold upcast_varr. destruct (dtype_eqb (v_dt x) DF16) eqn:E; [|reflexivity].
+  apply dtype_eqb_eq in E. contradiction. Qed.
+Lemma upcast_prop_vlen_id l m : Forall (fun x => v_dt x <> DF16) l -> upcast_prop (mkprop (PVlen l) m) = mkprop (PVlen l) m.
+Proof. intros H. unfold upcast_prop. cbn [p_vals p_missing]. rewrite (map_upcast_varr_id l H). reflexivity. Qed.
